@@ -223,11 +223,8 @@ func TestVerifC12(t *testing.T) {
 			if !ok || sch.Exempt {
 				continue
 			}
-			for _, n := range []struct {
-				name   string
-				isFunc bool
-			}{{"secrets", false}, {"github", false}, {"always", true}} {
-				for e, text := range c12Embeddings(n.name, n.isFunc)[:2] {
+			for _, n := range c12SubsetNames() {
+				for e, text := range c12SubsetEmbeddings(n.name, n.isFunc) {
 					idx++
 					if !r.Mine(idx) {
 						continue
@@ -255,11 +252,8 @@ func TestVerifC12(t *testing.T) {
 			if !ok || sch.Exempt {
 				continue
 			}
-			for _, n := range []struct {
-				name   string
-				isFunc bool
-			}{{"secrets", false}, {"github", false}, {"always", true}} {
-				for e, text := range c12Embeddings(n.name, n.isFunc)[:2] {
+			for _, n := range c12SubsetNames() {
+				for e, text := range c12SubsetEmbeddings(n.name, n.isFunc) {
 					idx++
 					if !r.Mine(idx) {
 						continue
@@ -284,7 +278,37 @@ func TestVerifC12(t *testing.T) {
 	r.Bounds["table_keys"] = len(vAvailability)
 	r.Bounds["contexts"] = len(vCtxAll)
 	r.Bounds["special_functions"] = len(vSpecialFuncs)
-	r.Bounds["embeddings"] = 7
+	r.Bounds["embeddings"] = 8
+	r.Bounds["full_product_at_variation_and_corpus_positions"] = vThorough()
+}
+
+type c12Name struct {
+	name   string
+	isFunc bool
+}
+
+// c12SubsetNames / c12SubsetEmbeddings: the names and embeddings used at the positions of the
+// sibling variations and of the testdata workflows: three names x two embeddings in the quick tier,
+// every context and special function x every embedding in the thorough tier.
+func c12SubsetNames() []c12Name {
+	if !vThorough() {
+		return []c12Name{{"secrets", false}, {"github", false}, {"always", true}}
+	}
+	var out []c12Name
+	for _, n := range vCtxAll {
+		out = append(out, c12Name{n, false})
+	}
+	for _, n := range vSpecialFuncs {
+		out = append(out, c12Name{n, true})
+	}
+	return out
+}
+
+func c12SubsetEmbeddings(name string, isFunc bool) []string {
+	if !vThorough() {
+		return c12Embeddings(name, isFunc)[:2]
+	}
+	return c12Embeddings(name, isFunc)
 }
 
 // c12TwoPlaceholders reports whether the mutated scalar of the replay payload holds two placeholders.
